@@ -45,6 +45,7 @@ type thread struct {
 	nspawn  uint64
 	nops    int
 	raceCtx uintptr
+	eager   bool // environment thread: runs as soon as it is enabled, never a choice
 }
 
 // Point is one choice point of an execution.
@@ -78,6 +79,11 @@ type Config struct {
 	KeepTrace        bool
 	TimeDeviations   bool // "the clock jumps while threads are runnable" is an alternative (cost 1)
 	SelectDeviations bool // a ready select case other than the first is an alternative (cost 1)
+	// DelayBounded counts every departure from the canonical deterministic scheduler
+	// (continue the running thread, else the lowest thread id) as one deviation, also
+	// when the running thread has blocked (delay-bounded scheduling); the default is
+	// preemption bounding, where choosing among threads after a block is free.
+	DelayBounded bool
 	// PruneAt, if set, is asked at every choice point beyond the forced prefix whether the
 	// state (fingerprint) has already been expanded; the execution then stops there.
 	PruneAt func(fp uint64) bool
@@ -318,6 +324,7 @@ func Go(f func()) {
 	t.hash = mix(p.hash, p.nspawn, 0x1234567)
 	t.ident = t.hash
 	t.name = fmt.Sprintf("t%d", t.id)
+	t.eager = p.eager
 	t.pending = &Op{Kind: "start", Obj: t.hash, Enabled: func() bool { return true }}
 	s.threads = append(s.threads, t)
 	raceSpawn(p, t)
@@ -449,6 +456,12 @@ func (s *Exec) pick(from *thread) *thread {
 		return nil
 	}
 	for {
+		// environment threads run as soon as they can: deterministic, lowest id first
+		for _, t := range s.threads {
+			if t.eager && !t.done && t.pending != nil && t.pending.Enabled() {
+				return t
+			}
+		}
 		var en []*thread
 		curEn := false
 		if !from.done && from.pending != nil && from.pending.Enabled() {
@@ -499,7 +512,7 @@ func (s *Exec) pick(from *thread) *thread {
 			for i := range costs {
 				switch {
 				case i < len(en):
-					if curEn && i != 0 {
+					if (curEn || s.Cfg.DelayBounded) && i != 0 {
 						costs[i] = 1
 					}
 				case i < len(en)+len(due):
@@ -689,3 +702,13 @@ var resetHooks []func()
 
 // RegisterReset registers f to run before every execution (package-level state of shims).
 func RegisterReset(f func()) { resetHooks = append(resetHooks, f) }
+
+// SetEager marks the calling thread (and every thread it spawns from now on) as
+// part of the environment: it runs as soon as it is enabled and never takes
+// part in a scheduling choice. Scenarios use it to make a peer "prompt" when the
+// property under exploration concerns only the other side.
+func SetEager(on bool) {
+	if S != nil && S.cur != nil {
+		S.cur.eager = on
+	}
+}
